@@ -60,4 +60,4 @@ package hash
 //@   ensures ret == nil ==> b58ok(ref)
 //@   ensures ret == nil ==> forall t int, d bytes trigger pbHash(t, d) :: b58dec(ref) == pbHash(t, d) && t != 0 && len(d) > 0 ==> h.HashType == t && content(h.Hash) == d
 
-//@ lemma hash-b58-roundtrip: forall t int, d bytes, t2 int, d2 bytes :: pbHash(t2, d2) == b58dec(b58enc(pbHash(t, d))) ==> t2 == t && d2 == d
+//@ lemma hash-b58-roundtrip: forall t int, d bytes, t2 int, d2 bytes :: t != 0 && pbHash(t2, d2) == b58dec(b58enc(pbHash(t, d))) ==> t2 == t && d2 == d
